@@ -799,6 +799,7 @@ func (s *session) closeLocked() error {
 }
 
 func (s *session) readDisconnected(oldConn net.Conn, err error) {
+RELOAD:
 	status := s.getStatus()
 	vp("rd.loaded", s, int64(status), 0)
 	switch status {
@@ -806,7 +807,10 @@ func (s *session) readDisconnected(oldConn net.Conn, err error) {
 		return
 	case statusActiveClosing:
 	default:
-		s.changeStatus(statusPassiveClosing)
+		// a concurrent Close() may have changed the status since it was loaded
+		if !s.tryChangeStatus(statusPassiveClosing, status) {
+			goto RELOAD
+		}
 		vp("rd.stored", s, 0, 0)
 	}
 
